@@ -189,6 +189,75 @@ fn fifo_case(rng: &mut Rng, idx: usize, dir: &std::path::Path) -> String {
     verdict("fifo_reassembly", &format!("#{idx} len={len} style={style}"), got, &data)
 }
 
+/// TcpSource call by call against `tcpStep`: the peer writes one small piece, the block does one `work()`
+/// (its blocking `read()` returns exactly that piece on the loopback interface), and what it pushed is recorded.
+fn tcp_steps_case(rng: &mut Rng, idx: usize) -> String {
+    let complex = rng.chance(1, 2);
+    let size = if complex { 8 } else { 4 };
+    let listener = std::net::TcpListener::bind("127.0.0.1:0").unwrap();
+    let port = listener.local_addr().unwrap().port();
+    let nchunks = rng.range(1, 25);
+    let style = rng.below(3);
+    let chunks: Vec<Vec<u8>> = (0..nchunks)
+        .map(|_| {
+            let k = match style {
+                0 => rng.range(1, 3),
+                1 => rng.range(1, 2 * size + 1),
+                _ => rng.range(1, 40),
+            };
+            (0..k).map(|_| rng.below(256) as u8).collect()
+        })
+        .collect();
+    let mut req = format!("tcp {}", if complex { "complex" } else { "u32" });
+    for c in &chunks {
+        req += " ;";
+        for b in c {
+            req += &format!(" {b}");
+        }
+    }
+    let (ready_tx, ready_rx) = std::sync::mpsc::channel::<std::net::TcpStream>();
+    let acc = std::thread::spawn(move || {
+        let (s, _) = listener.accept().unwrap();
+        s.set_nodelay(true).ok();
+        ready_tx.send(s).ok();
+    });
+    fn steps<T: rustradio::Sample<Type = T> + Copy + std::fmt::Debug + Default + 'static>(
+        port: u16,
+        ready_rx: std::sync::mpsc::Receiver<std::net::TcpStream>,
+        chunks: &[Vec<u8>],
+        show: impl Fn(&T) -> String,
+    ) -> Result<String, String> {
+        let (mut src, o) = TcpSource::<T>::new("127.0.0.1", port).map_err(|e| e.to_string())?;
+        let mut peer = ready_rx.recv_timeout(std::time::Duration::from_secs(5)).map_err(|e| e.to_string())?;
+        let mut outs = vec![];
+        for c in chunks {
+            peer.write_all(c).map_err(|e| e.to_string())?;
+            peer.flush().ok();
+            src.work().map_err(|e| e.to_string())?;
+            let (rb, _) = o.read_buf().map_err(|e| e.to_string())?;
+            outs.push(rb.slice().iter().map(&show).collect::<Vec<_>>().join(" "));
+            let n = rb.len();
+            rb.consume(n);
+        }
+        Ok(outs.join(" ; "))
+    }
+    let res = quiet(|| {
+        if complex {
+            steps::<Complex>(port, ready_rx, &chunks, |v| format!("{},{}", v.re.to_bits(), v.im.to_bits()))
+        } else {
+            steps::<u32>(port, ready_rx, &chunks, |v| format!("{v},0"))
+        }
+    });
+    acc.join().ok();
+    let obs = match res {
+        Ok(Ok(s)) => s,
+        Ok(Err(e)) => format!("error {e}"),
+        Err(p) => format!("panic {p}"),
+    };
+    let _ = idx;
+    format!("{req}\t{obs}")
+}
+
 fn tcp_case(rng: &mut Rng, idx: usize) -> String {
     let listener = std::net::TcpListener::bind("127.0.0.1:0").unwrap();
     let port = listener.local_addr().unwrap().port();
@@ -523,6 +592,8 @@ pub fn run(args: &[String]) -> Vec<String> {
         out.push(fifo_case(&mut r, i, dir.path()));
         let mut r = rng.fork();
         out.push(tcp_case(&mut r, i));
+        let mut r = rng.fork();
+        out.push(tcp_steps_case(&mut r, i));
         if i % 4 == 0 {
             let mut r = rng.fork();
             out.push(tcp_backpressure_case(&mut r, i));
